@@ -133,7 +133,14 @@ impl<'a, 'b> WGen<'a, 'b> {
                 // MERGE node with ON CREATE / ON MATCH
                 let k = self.t.choose(4) as i64;
                 let l = self.label();
-                let pat = PathPat { name: None, start: NodePat { var: Some("n".into()), labels: vec![l], props: vec![("k".into(), lit(V::Int(k)))] }, steps: vec![], shortest: Shortest::No };
+                // one label, or two (a node carrying only one of them must not match)
+                let labels = if self.t.chance(1, 3) {
+                    let l2 = gen::LABELS[(gen::LABELS.iter().position(|x| *x == l).unwrap_or(0) + 1 + self.t.choose(2)) % 3].to_string();
+                    vec![l, l2]
+                } else {
+                    vec![l]
+                };
+                let pat = PathPat { name: None, start: NodePat { var: Some("n".into()), labels, props: vec![("k".into(), lit(V::Int(k)))] }, steps: vec![], shortest: Shortest::No };
                 let uid = self.next_uid;
                 self.next_uid += 1;
                 let on_create = vec![SetItem::Prop("n".into(), "uid".into(), lit(V::Int(uid))), SetItem::Prop("n".into(), "c".into(), lit(V::Int(1)))];
